@@ -301,7 +301,8 @@ MAN_DV_2             = {dv[1]:.6f} [km/s]
 MAN_DV_3             = {dv[2]:.6f} [km/s]
 """.format(
                 i=i + 1,
-                date=date,
+                # in the time system the message announces
+                date=date.change_scale(cart.date.scale.name),
                 duration=duration,
                 man=man,
                 dv=man._dv / units.km,
@@ -416,7 +417,10 @@ def _dumps_xml(data, *, kep=True, **kwargs):
                 duration = 0
 
             man_epoch = ET.SubElement(mans, "MAN_EPOCH_IGNITION")
-            man_epoch.text = date.strftime(DATE_FMT_DEFAULT)
+            # in the time system the message announces
+            man_epoch.text = date.change_scale(cart.date.scale.name).strftime(
+                DATE_FMT_DEFAULT
+            )
             man_dur = ET.SubElement(mans, "MAN_DURATION", units="s")
             man_dur.text = f"{duration:0.3f}"
 
